@@ -4,7 +4,16 @@
 #include <plibsys.h>
 #include <sys/mman.h>
 #include "vtrace.h"
-static void fill (unsigned char *b, size_t n, unsigned seed) { size_t i; for (i = 0; i < n; i++) b[i] = (unsigned char) ((seed * 131u + (unsigned) i * 7u + (unsigned) (i >> 8) * 13u) & 0xff); }
+/* seeds from 1000: content made of extreme words (all ones, zero, alternating) - the same classes as the oracle's sbyte() */
+static unsigned char sbyte (size_t i, unsigned seed) {
+	static const unsigned char w[4] = { 0x01, 0x00, 0x00, 0x80 };
+	if (seed == 1000) return 0xff;
+	if (seed == 1001) return 0x00;
+	if (seed == 1002) return i % 32 == 0 ? 0x01 : 0xff;
+	if (seed == 1003) return (i / 4) % 2 == 0 ? 0xff : w[i % 4];
+	return i % 64 == 63 ? 0x80 : 0xff;
+}
+static void fill (unsigned char *b, size_t n, unsigned seed) { size_t i; if (seed >= 1000) { for (i = 0; i < n; i++) b[i] = sbyte (i, seed); return; } for (i = 0; i < n; i++) b[i] = (unsigned char) ((seed * 131u + (unsigned) i * 7u + (unsigned) (i >> 8) * 13u) & 0xff); }
 int main (int argc, char **argv) {
 	FILE *in; char line[256], op[32]; long a, b, c, d; PCryptoHash *h = NULL;
 	if (argc < 3) return 2;
